@@ -41,6 +41,11 @@ def urls_from_text(string):
 
                 url = target_match.group(0)
 
+        matched = url
+
+        # NOTE: the pattern lets typographic blanks through as letters of a tld
+        url = url.rstrip()
+
         last_punct = None
 
         stop = len(url) - 1
@@ -52,5 +57,12 @@ def urls_from_text(string):
 
         if i != stop:
             url = url[: i + 1]
+
+        # NOTE: what is left may not be an url anymore ('http://a.b»')
+        if url != matched:
+            trimmed_match = re.match(URL_IN_TEXT_RE, url)
+
+            if trimmed_match is None or trimmed_match.end() != len(url):
+                continue
 
         yield url
